@@ -176,7 +176,7 @@ def relation_check(ctx, rng, spec, rel, mode, cross, cond_max=1e8):
     if mode:
         # chi2 reports must agree as well (scaled)
         ctx.close("final-chi2-representation-invariant", r2.final_chi2, c * r1.final_chi2, max(c, 1) * (1e-7 * max(1.0, amp / 64) * abs(r1.final_chi2) + bound * 1e3 + 1e-20), feats, None, case)
-    if rel in ("permute_vertices", "permute_edges") and mode and amp < 1e3 and worst <= tol:
+    if rel in ("permute_vertices", "permute_edges") and mode and amp < 30 and tol < 1e-6 and worst <= tol:
         # history / object reuse: after K iterations, re-list the *same* vertex and edge objects in another order in a second Graph and continue there;
         # continuing on the original graph must give the same result (nothing remembered on the objects may depend on the old listing)
         try:
@@ -196,7 +196,8 @@ def relation_check(ctx, rng, spec, rel, mode, cross, cond_max=1e8):
                     continue
                 dt, dr = M.pose_distance(M.kind(v.pose), p, q)
                 wr = max(wr, dt, dr)
-            ctx.check("result-representation-invariant", wr <= tol * 16, dict(feats, variant="same objects re-listed in a second Graph"), {"worst": wr, "tol": tol * 16}, case)
+            tol_re = tol * 16 * (amp + 1.0) ** 2  # two more iterations of a map whose measured amplification over `mode` iterations is amp
+            ctx.check("result-representation-invariant", wr <= tol_re, dict(feats, variant="same objects re-listed in a second Graph"), {"worst": wr, "tol": tol_re}, case)
             ctx.count("class:objects_reused_in_second_graph")
         except Exception as ex:
             ctx.check("result-representation-invariant", False, dict(feats, variant="same objects re-listed in a second Graph", exception=type(ex).__name__), {"message": str(ex)[:300]}, case)
